@@ -924,10 +924,11 @@ def d_predicates(case, r):
                 if gotn != wantn:
                     fails.append(f"S2 next/next_back outputs {gotn} differ from the mathematical definition {wantn}")
     # E: an error raised inside the iterator (generator body / callback threw) must surface in the consumer, and a
-    # thrown 'boom' must have such an origin.  Adaptors that discard pulled outputs by design (skip, step: std
-    # nth / ignored pulls) or look one element ahead (intersperse) are left to the model comparison.
+    # thrown 'boom' must have such an origin (skip / step included: they return an Error found among the outputs they
+    # discard).  intersperse looks one element ahead, so a consumer may stop before the error is delivered: left to
+    # the model comparison.
     threw = any(e[0] == "fail" or (e[0] == "cb" and e[1] in ("T(i15,i4)", "T(i16,i1)")) for e in ev)
-    lookahead = any(st[0] in ("skip", "step", "intersperse", "intersperse_with") for st in case["stages"])
+    lookahead = any(st[0] in ("intersperse", "intersperse_with") for st in case["stages"])
     if threw and not lookahead and not r["result"].startswith("E"):
         fails.append(f"E1 an error was thrown inside the iterator while `{case['consumer'][0]} {case['consumer'][1]}` was "
                      f"pulling it, but the consumer finished normally with {r['result']} (error dropped)")
